@@ -11,7 +11,7 @@ use crate::dval::{to_yaml, to_yaml_map, DVal};
 use crate::eng::{self, Load, Sw};
 use crate::gen::{self, GenCfg};
 use crate::prng::Rng;
-use crate::reps::{to_myval, FlatDoc};
+use crate::reps::{to_myval, FickleDoc, FlatDoc};
 use crate::run::{clear_case, finish, par_shards, set_case, start_watchdog, Ctx, Meta, Report};
 
 /// condition text with token-level damage that often still loads
@@ -150,6 +150,7 @@ fn exercise(rep: &mut Report, rng: &mut Rng, text: &str, rule: &tau_engine::Rule
     let maps: Vec<serde_yaml::Mapping> = docs.iter().map(to_yaml_map).collect();
     // a flat document that answers every addressed key literally, with arbitrary kinds
     let flat = FlatDoc { table: fields.iter().map(|f| (f.clone(), to_myval(&hostile_value(rng, 0)))).collect(), log: None };
+    let fickle = FickleDoc { values: (0..11).map(|_| to_myval(&hostile_value(rng, 0))).collect(), calls: std::sync::atomic::AtomicUsize::new(0) };
     let bad = |rep: &mut Report, stage: &str, p: &eng::Panic, sw: Option<Sw>, doc: Option<&DVal>| {
         rep.violation(
             "panic",
@@ -182,6 +183,15 @@ fn exercise(rep: &mut Report, rng: &mut Rng, text: &str, rule: &tau_engine::Rule
         rep.evaluations += 1;
         if let Err(p) = eng::matches(&o, &flat) {
             bad(rep, &format!("matches(flat document) after optimise[{}]", sw.name()), &p, Some(sw), None);
+        }
+        // a document whose answers change kind from call to call
+        for start in 0..3 {
+            rep.evaluations += 1;
+            fickle.calls.store(start * 5, std::sync::atomic::Ordering::Relaxed);
+            if let Err(p) = eng::matches(&o, &fickle) {
+                bad(rep, &format!("matches(inconsistent document) after optimise[{}]", sw.name()), &p, Some(sw), None);
+                break;
+            }
         }
         if sw.0 == 0 || sw.0 == 15 {
             rep.evaluations += 1;
